@@ -1,7 +1,8 @@
 CONSTANTS HW = 7
-          Margins = {21, 2}
+          Margins = {1, 2, 3, 4, 5, 6}
           Anchors = {1, 2}
           NMax = 8
+          MCMod = 1
           GenMod = 1
           TPad = 3
 INIT Init
